@@ -286,12 +286,48 @@ def populated_before_lookup(repo, col, module_shorts):
             for c in mro:
                 for mname, f in c.methods.items():
                     seen_methods.setdefault(mname, f)
+            # inserters of the subclasses: a base class may read state
+            # that only its concrete subclasses fill
+            sub_ins = {}
+            for oc in repo.all_classes():
+                if oc is ci or ci not in repo.mro(oc):
+                    continue
+                for mname, f in oc.methods.items():
+                    for st in walk_local(f.node, include_root=False):
+                        if isinstance(st, ast.Assign):
+                            for t in st.targets:
+                                if isinstance(t, ast.Subscript) and \
+                                        _self_attr(t.value):
+                                    sub_ins.setdefault(_self_attr(t.value),
+                                                       []).append(f)
+                        elif isinstance(st, ast.Call) and \
+                                isinstance(st.func, ast.Attribute) and \
+                                st.func.attr in ("update", "setdefault") and \
+                                _self_attr(st.func.value):
+                            sub_ins.setdefault(_self_attr(st.func.value),
+                                               []).append(f)
             for mname, f in sorted(seen_methods.items()):
                 looked = {}
+                # keys drawn from the container itself: the lookup cannot miss
+                own_keys = set()
+                for node in walk_local(f.node, include_root=False):
+                    its = []
+                    if isinstance(node, (ast.For, ast.comprehension)):
+                        its = [(node.target, node.iter)]
+                    for tg, it in its:
+                        src = {_self_attr(x) for x in ast.walk(it)
+                               if _self_attr(x)}
+                        if isinstance(tg, ast.Name):
+                            for a_ in src:
+                                own_keys.add((tg.id, a_))
                 for node in walk_local(f.node, include_root=False):
                     if isinstance(node, ast.Subscript) and \
                             isinstance(node.ctx, ast.Load) and \
                             _self_attr(node.value) in empties:
+                        if isinstance(node.slice, ast.Name) and \
+                                (node.slice.id, _self_attr(node.value)) \
+                                in own_keys:
+                            continue
                         looked.setdefault(_self_attr(node.value), node)
                     if isinstance(node, ast.Compare):
                         for op, cmpv in zip(node.ops, node.comparators):
@@ -301,6 +337,7 @@ def populated_before_lookup(repo, col, module_shorts):
                 for attr, node in sorted(looked.items()):
                     grp = group.get(attr, {attr})
                     ins = [g for a in grp for g in inserters.get(a, [])]
+                    ins += [g for a in grp for g in sub_ins.get(a, [])]
                     ok = bool(ins)
                     n += 1
                     col.add(rule, "%s:%s.%s" % (m.short, ci.name, mname),
@@ -1100,11 +1137,31 @@ def inplace_ownership(repo, col):
     out_param = outer_fn.params[1] if len(outer_fn.params) > 1 else \
         "output_dtype"
     rets = [s for s in stmts_of(fn.node) if isinstance(s, ast.Return)]
+    odefs = local_defs(outer_fn.node)
+
+    def _is_out(e):
+        """The output dtype under one of its names: the parameter, a field
+        or attribute called like it, a local of the factory derived from it
+        alone."""
+        t = norm(e)
+        if t == out_param or t.endswith("." + out_param):
+            return True
+        if isinstance(e, ast.Name):
+            src = closure_names(outer_fn.node, [e.id], odefs) & set(
+                outer_fn.params)
+            return src == {out_param}
+        return False
+
+    def _is_other(e):
+        t = norm(e)
+        return isinstance(e, ast.Constant) or "work" in t or "input" in t \
+            or (isinstance(e, ast.Attribute) and e.attr == "dtype" and
+                norm(e.value) in tracked_all)
     ok = bool(rets) and all(
         isinstance(r.value, ast.Call) and isinstance(r.value.func, ast.Attribute)
         and r.value.func.attr == "astype"
         and norm(r.value.func.value) in tracked_all
-        and r.value.args and norm(r.value.args[0]) == out_param
+        and r.value.args and _is_out(r.value.args[0])
         for r in rets)
     # positively wrong: a return that casts to another dtype, or hands back
     # the tracked work array without any cast; a result assembled some other
@@ -1114,7 +1171,7 @@ def inplace_ownership(repo, col):
         v = r.value
         if isinstance(v, ast.Call) and isinstance(v.func, ast.Attribute) \
                 and v.func.attr == "astype" and v.args and \
-                norm(v.args[0]) != out_param:
+                not _is_out(v.args[0]) and _is_other(v.args[0]):
             wrong.append(r)
         elif isinstance(v, ast.Name) and v.id in tracked_all:
             wrong.append(r)
@@ -1343,16 +1400,45 @@ def minishard_encode_before_park(repo, col):
                 "nor a store into the reorder buffer was recognised in %s"
                 % fn.key, undecided=True)
         return
+    from .core import attr_constants, expand_attrs
+    table = attr_constants(repo, fn.cls) if fn.cls is not None else {}
+
+    def encoding_of(e):
+        """'data' / 'index' / 'other' / None for an expression: which codec
+        of the shard specification produced it (None: not a codec call)."""
+        t = norm(expand_attrs(e, table))
+        if "data_encoder(" in t:
+            return "data"
+        if "index_encoder(" in t:
+            return "index"
+        for c in ast.walk(e):
+            if isinstance(c, ast.Call) and isinstance(c.func, ast.Attribute) \
+                    and c.func.attr in ("encode", "encoder", "compress") and \
+                    raw in (closure_names(fn.node, names_in(c), defs)
+                            | names_in(c)):
+                recv = norm(expand_attrs(c.func.value, table))
+                if "index" in recv:
+                    return "index"
+                if "data" in recv:
+                    return "data"
+                return "other"
+        return None
+
     for node, val in sinks:
         ok = False
-        if "data_encoder(" in norm(val):
-            ok = True
+        kinds = {encoding_of(val)}
         for nm in names_in(val):
             ds = [d for d in defs.get(nm, []) if d.value is not None]
-            if ds and all("data_encoder(" in norm(d.value) for d in ds):
-                ok = True
+            if ds:
+                ks = {encoding_of(d.value) for d in ds}
+                if len(ks) == 1:
+                    kinds |= ks
+        if "data" in kinds:
+            ok = True
         und = False
-        if not ok:
+        if not ok and "other" in kinds and "index" not in kinds:
+            und = True          # encoded by something this rule cannot name
+        elif not ok:
             derive = closure_names(fn.node, names_in(val), defs) | \
                 names_in(val)
             if raw in derive:
